@@ -192,13 +192,13 @@ package proxy
 //@ func parseOptionsConfig(proxy *UpstreamConfig, defaultOpts *OptionsConfig) error
 //@   let O = old(proxy.RouteConfig.Options)
 //@   let Df = defaultOpts
-//@   let skip = (O != nil && len(old(O.SkipAuthRegex)) > 0) ? old(O.SkipAuthRegex) : (Df != nil ? old(Df.SkipAuthRegex) : O.SkipAuthRegex[:0])
+//@   let skip = (O != nil && len(old(O.SkipAuthRegex)) > 0) ? old(O.SkipAuthRegex) : old(Df.SkipAuthRegex)
 //@   ensures [C14] groups_own_or_default: result == nil && Df != nil ==> eqList(proxy.AllowedGroups, (O != nil && len(old(O.AllowedGroups)) > 0) ? old(O.AllowedGroups) : old(Df.AllowedGroups))
 //@   ensures [C14] domains_own_or_default: result == nil && Df != nil ==> eqList(proxy.AllowedEmailDomains, (O != nil && len(old(O.AllowedEmailDomains)) > 0) ? old(O.AllowedEmailDomains) : old(Df.AllowedEmailDomains))
 //@   ensures [C14] addresses_own_or_default: result == nil && Df != nil ==> eqList(proxy.AllowedEmailAddresses, (O != nil && len(old(O.AllowedEmailAddresses)) > 0) ? old(O.AllowedEmailAddresses) : old(Df.AllowedEmailAddresses))
 //@   ensures [C14] slug_own_or_default: result == nil && Df != nil ==> proxy.ProviderSlug == ((O != nil && old(O.ProviderSlug) != "") ? old(O.ProviderSlug) : old(Df.ProviderSlug))
-//@   ensures [C14] every_pattern_compiled: result == nil && Df != nil ==> len(proxy.SkipAuthCompiledRegex) == old(len(proxy.SkipAuthCompiledRegex)) + len((O != nil && len(old(O.SkipAuthRegex)) > 0) ? old(O.SkipAuthRegex) : old(Df.SkipAuthRegex))
-//@   ensures [C14] patterns_in_order: result == nil && Df != nil && old(len(proxy.SkipAuthCompiledRegex)) == 0 ==> forall i :: 0 <= i && i < len(proxy.SkipAuthCompiledRegex) ==> proxy.SkipAuthCompiledRegex[i] != nil && regexSource(proxy.SkipAuthCompiledRegex[i]) == ((O != nil && len(old(O.SkipAuthRegex)) > 0) ? old(O.SkipAuthRegex) : old(Df.SkipAuthRegex))[i]
+//@   ensures [C14] every_pattern_compiled: result == nil && Df != nil ==> len(proxy.SkipAuthCompiledRegex) == old(len(proxy.SkipAuthCompiledRegex)) + len(skip)
+//@   ensures [C14] patterns_in_order: result == nil && Df != nil && old(len(proxy.SkipAuthCompiledRegex)) == 0 ==> forall i :: 0 <= i && i < len(proxy.SkipAuthCompiledRegex) ==> proxy.SkipAuthCompiledRegex[i] != nil && regexSource(proxy.SkipAuthCompiledRegex[i]) == skip[i]
 //@   loop 1
 //@     invariant len(proxy.SkipAuthCompiledRegex) == old(len(proxy.SkipAuthCompiledRegex)) + $i
-//@     invariant old(len(proxy.SkipAuthCompiledRegex)) == 0 ==> forall j :: 0 <= j && j < $i ==> proxy.SkipAuthCompiledRegex[j] != nil && regexSource(proxy.SkipAuthCompiledRegex[j]) == dst.SkipAuthRegex[j]
+//@     invariant old(len(proxy.SkipAuthCompiledRegex)) == 0 ==> forall j :: 0 <= j && j < $i ==> proxy.SkipAuthCompiledRegex[j] != nil && regexSource(proxy.SkipAuthCompiledRegex[j]) == skip[j]
